@@ -220,6 +220,14 @@ def _build(ctx, case):
         item.sep = "  "
         other = _mk_item(ctx.seed, "-", None, "none", [1], "single")
         return M.APage(title=[M.W("t")], top_blocks=[[item, other]])
+    if kind == "firstword":
+        # a first body word that looks like a relative date spec (or another unit-suffixed number);
+        # it is a word, and whatever follows it is body as well
+        _, k, p, first, second = case
+        item = _mk_item(ctx.seed, k, p, "none", [0], "single")
+        item.words = [M.W(first), M.W(second), M.W("tail")]
+        other = _mk_item(ctx.seed, "-", None, "none", [1], "single")
+        return M.APage(title=[M.W("t")], top_blocks=[[item, other]])
     if kind == "rich":
         _, pi, a, b, lead = case
         k, p, ident = RICH_PREFIXES[pi]
@@ -333,6 +341,10 @@ def _cases(ctx):
                 if ctx.quick and (a + b + pi) % 2:
                     continue
                 cases.append(["rich", pi, a, b, (a + b) % 3 != 0])
+    for (k, p) in KP:
+        for first in ("5m", "10d", "1y", "3Y", "0d", "2D", "12h", "1w", "2024", "7"):
+            for second in ("jog", "240203#AB", "2024-02-03", "240203"):
+                cases.append(["firstword", k, p, first, second])
     # long pages: every rotation of the 24-item alphabet, repeated 1x, 2x and 5x
     for rot in range(24):
         for rep in ((1, 2) if ctx.quick else (1, 2, 5)):
